@@ -125,6 +125,10 @@ type seamStore struct {
 	onCall  func(n int, what string) error
 	stores  int
 	batches [][2]uint64
+	// cancelled (if set) points at the driver's flag; getsAfterCancel counts
+	// GetLog calls that began after the context had been cancelled
+	cancelled       *bool
+	getsAfterCancel int
 }
 
 func (s *seamStore) pre(what string) error {
@@ -148,6 +152,9 @@ func (s *seamStore) LastIndex() (uint64, error) {
 	return s.inner.LastIndex()
 }
 func (s *seamStore) GetLog(i uint64, l *raft.Log) error {
+	if s.cancelled != nil && *s.cancelled {
+		s.getsAfterCancel++
+	}
 	if err := s.pre("GetLog"); err != nil {
 		return err
 	}
@@ -323,7 +330,7 @@ func (c *c19) run(cfg Config) (log []string) {
 		}
 		return nil
 	}
-	src := &seamStore{inner: srcInner, sim: c.sim, calls: &calls, onCall: onCall}
+	src := &seamStore{inner: srcInner, sim: c.sim, calls: &calls, onCall: onCall, cancelled: &cancelled}
 	dst := &seamStore{inner: dstInner, sim: c.sim, calls: &calls, onCall: onCall}
 	c.sig = append(c.sig, srcKind, dstKind, fmt.Sprintf("n=%d bb=%d pk=%d mode=%d", bucket(n), batchBytes, pk, mode))
 	logf("CopyLogs %s->%s n=%d first=%d batchBytes=%d progress=%d mode=%d k=%d", srcKind, dstKind, n, first, batchBytes, pk, mode, k)
@@ -383,8 +390,20 @@ func (c *c19) run(cfg Config) (log []string) {
 		}
 		return true
 	}
+	if cancelled && err == nil && src.getsAfterCancel > 0 {
+		// A cancellation that lands during the last entry's fetch or later may
+		// legitimately go unnoticed; one that lands while entries remain to be
+		// fetched must be honoured: the copy went on to fetch more and still
+		// reported success.
+		c.violate("cancel-error", "cancel-ignored", "the context was cancelled during call %d; CopyLogs fetched %d more source entries and returned nil instead of the context's error", k, src.getsAfterCancel)
+		return
+	}
+	if cancelled && err == nil {
+		c.probes.Add("cancel_after_last_fetch", 1)
+	}
 	switch {
 	case cancelled && err != nil:
+		c.probes.Add("cancel_honoured", 1)
 		if !errors.Is(err, context.Canceled) {
 			c.violate("cancel-error", "cancel-wrong-error", "after cancellation CopyLogs returned %v, want the context's error", err)
 			return
